@@ -29,6 +29,12 @@ def aggregate(run, results, pid, want_value=True, want_sides=False):
                 continue
             if m.get("verdict") and m["verdict"] != rec.get("verdict"):
                 continue
+            if m.get("transformation_in") and rec.get("transformation") not in m["transformation_in"]:
+                continue
+            if m.get("model_contains") and m["model_contains"] not in r["model"]:
+                continue
+            if k.get("diagnose") and not OC.diagnose(k["diagnose"], rec):
+                continue
             return k
         return None
 
@@ -57,6 +63,11 @@ def aggregate(run, results, pid, want_value=True, want_sides=False):
                         run.violation(path, f"{r['model']} {rec['transformation']}: {rec.get('detail')} | {str(rep.get('difference'))[:160]}")
                 elif rec.get("uf"):
                     counts["cex_not_reproduced_uf"] = counts.get("cex_not_reproduced_uf", 0) + 1
+                elif rec.get("grid") == "none":
+                    # the only counterexamples are not float32-representable; rounded to float32 they do not reproduce
+                    counts["cex_only_off_float_grid"] = counts.get("cex_only_off_float_grid", 0) + 1
+                    run.note_inconclusive(f"{r['model']} {rec['transformation']}: the solver's counterexample is not float32-representable "
+                                          f"and does not reproduce after rounding (difference confined to a rounding-sized input region)")
                 else:
                     run.harness_error(f"{r['model']} {rec['transformation']}: counterexample does not reproduce on onnxruntime "
                                       f"({rec.get('detail')}; replay={rep})")
